@@ -204,7 +204,7 @@ def c1_tt(fb, rep):
             for b2, i2, e2 in lam.events():
                 if e2.get('k') == 'decl':
                     for v in e2.get('vars', []):
-                        if v.get('n') == 'len' and isinstance(v.get('init'), dict) and v['init'].get('k') == 'call' and cname(v['init']) == 'std::min':
+                        if isinstance(v.get('init'), dict) and v['init'].get('k') == 'call' and cname(v['init']) == 'std::min':
                             lam_ok = True
         rep.ob(clause, 'K13 reset completeness', 'clear(): the last chunk is clipped to the table size (len = min(chunk, size - i))', lam_ok, clear.where, '', clear.sname)
     # nextGeneration callers: only before a search is handed over
@@ -258,7 +258,7 @@ def c2_rest(fb, rep):
                'members %s, zeroed %s' % (members, sorted(written)), hi.sname)
         htf = next((f for f in hrec['fields'] if f['n'] == 'ht'), None)
         ext = _extent(htf['ct']) if htf else None
-        bound = _loop_bound(hi, 'p')
+        bound = _loop_bound(hi, None)
         rep.ob(clause, 'K13 reset completeness', 'History::init outer loop bound equals the extent of ht[]', ext is not None and bound == ext,
                hi.where, 'loop bound %s, extent %s' % (bound, ext), hi.sname)
         # inner loop: range-for over AllSquares; AllSquares::end() is 64 == SqTbl extent
@@ -285,7 +285,7 @@ def c2_rest(fb, rep):
     if rep.need(clause, kc, 'KillerTable::clear') and rep.need(clause, krec, 'record KillerTable'):
         f = next((f for f in krec['fields'] if f['n'] == 'ktList'), None)
         ext = _extent(f['ct']) if f else None
-        bound = _loop_bound(kc, 'i')
+        bound = _loop_bound(kc, None)
         rep.ob(clause, 'K13 reset completeness', 'KillerTable::clear loop bound equals the extent of ktList[]', ext is not None and bound == ext,
                kc.where, 'loop bound %s, extent %s' % (bound, ext), kc.sname)
         assigns = [e for _, _, e in kc.events() if e.get('k') in ('call', 'asg') and
@@ -309,15 +309,19 @@ def c2_rest(fb, rep):
                             R.is_named_call('KillerTable::clear'))
         R.must_pass_between(rep, it, clause, 'iterativeDeepening: the history is rescaled before searching', None, searches,
                             R.is_named_call('History::reScale', 'History::init'))
-        # the clearHistory flag is forwarded to the helpers
+        # the clearHistory flag (the last bool parameter) is forwarded to the helpers
+        it_flag = {p_['id'] for p_ in it.d.get('params', []) if (p_.get('t') or '') == 'bool'}
+        it_flag = {max(it_flag)} if it_flag else set()
         fw = False
         for b, i, e in it.calls('Communicator::sendInitSearch'):
-            if any(n.get('k') == 'var' and n.get('n') == 'clearHistory' for a in e.get('args', []) for n in walk(a)):
+            if any(n.get('k') == 'var' and n.get('id') in it_flag for a in e.get('args', []) for n in walk(a)):
                 fw = True
         rep.ob(clause, 'K2 must-call', 'iterativeDeepening forwards clearHistory to the helper threads', fw, it.where, '', it.sname)
     # helper path
     ins = fb.find1('WorkerThread::CommHandler::initSearch')
     if rep.need(clause, ins, 'WorkerThread::CommHandler::initSearch'):
+        ins_flag = {p_['id'] for p_ in ins.d.get('params', []) if (p_.get('t') or '') == 'bool'}
+
         def tr(e, c, pos):
             kt, ht = c
             if e.get('k') == 'call':
@@ -340,7 +344,7 @@ def c2_rest(fb, rep):
                     kt = 'none'
                 if p and p.endswith('.ht') and not t:
                     ht = 'none'
-            if isinstance(e, dict) and e.get('k') == 'var' and e.get('n') == 'clearHistory':
+            if isinstance(e, dict) and e.get('k') == 'var' and e.get('id') in ins_flag:
                 ht = ht + ('+T' if t else '+F') if ht == 'open' else ht
             return [(kt, ht)]
         fl = Flow(ins, tr, rf).run({('open', 'open')})
@@ -359,7 +363,7 @@ def c2_rest(fb, rep):
                 t = ins.blocks[d].get('term')
                 c = eff_cond(t) if t else None
                 ce, pol = strip_not(c) if c is not None else (None, True)
-                if isinstance(ce, dict) and ce.get('k') == 'var' and ce.get('n') == 'clearHistory' and pol:
+                if isinstance(ce, dict) and ce.get('k') == 'var' and ce.get('id') in ins_flag and pol:
                     ts_ = ins.blocks[d]['succ'][0]
                     guarded = guarded or ts_ == b or ts_ in doms
             rep.ob(clause, 'K4 guard', 'helper initSearch: History::init under clearHistory', guarded, R.site(ins, e), '', ins.sname)
@@ -370,7 +374,7 @@ def c2_rest(fb, rep):
                 t = ins.blocks[d].get('term')
                 c = eff_cond(t) if t else None
                 ce, pol = strip_not(c) if c is not None else (None, True)
-                if isinstance(ce, dict) and ce.get('k') == 'var' and ce.get('n') == 'clearHistory':
+                if isinstance(ce, dict) and ce.get('k') == 'var' and ce.get('id') in ins_flag:
                     fs_ = ins.blocks[d]['succ'][1] if pol else ins.blocks[d]['succ'][0]
                     guarded = guarded or fs_ == b or fs_ in doms
             rep.ob(clause, 'K4 guard', 'helper initSearch: History::reScale only when clearHistory is not set', guarded, R.site(ins, e), '', ins.sname)
@@ -415,7 +419,7 @@ def _extent(ct):
 
 
 def _loop_bound(func, var):
-    """Constant N of a `for (var = 0; var < N; var++)` loop in func (first match)."""
+    """Constant N of the outermost `for (v = 0; v < N; v++)` loop in func (first match; var None = any counter)."""
     for bid in sorted(func.blocks, reverse=True):
         blk = func.blocks[bid]
         t = blk.get('term')
@@ -425,7 +429,7 @@ def _loop_bound(func, var):
         if isinstance(c, dict) and c.get('k') == 'bin' and c.get('op') == '<':
             l = c.get('l')
             l = l.get('e') if isinstance(l, dict) and l.get('k') == 'cast' else l
-            if isinstance(l, dict) and l.get('k') == 'var' and l.get('n') == var:
+            if isinstance(l, dict) and l.get('k') == 'var' and (var is None or l.get('n') == var):
                 r = c.get('r')
                 if isinstance(r, dict) and 'cv' in r:
                     return r['cv']
